@@ -539,6 +539,7 @@ class World:
         self.tty_rdev = tty_rdev
         self.status_name = status
         self.name = name
+        self.argv0 = None               # override of cmdline()[0]
         self.others = [1, 77]
         self.sink = []                  # setter calls delivered
         self.clock.sleeps[:] = []
@@ -632,7 +633,7 @@ class World:
         return rows
 
     def cmdline(self):
-        return [SHELL, "-c", "sleep %d" % self.salt]
+        return [getattr(self, "argv0", None) or SHELL, "-c", "sleep %d" % self.salt]
 
     def environ(self):
         return {"HOME": "/root", "LANG": "C", "SALT": str(self.salt)}
